@@ -16,10 +16,10 @@ theorem efi_memory_areas_eq (p : Profile) (ver ao : Nat) (it : V) :
   simp only [evalO, Gen.Fns.efi_memory_areas, Option.map]
   by_cases h1 : ver = 1 <;> by_cases h2 : ao = 0 <;> simp [eval, binop, arith, h1, h2]
 
-theorem efi_iter_new_eq (p : Profile) (ds len : Nat) (hds : ds < W32) :
-    evalO p [.int .u32 ds, .int .usize len, .int .usize 40, .int .usize 8] Gen.Fns.efi_iter_new =
+theorem efi_iter_new_eq (p : Profile) (ds len : Nat) (tag : V) (hds : ds < W32) :
+    evalO p [.int .u32 ds, .int .usize len, .int .usize 40, .int .usize 8, tag] Gen.Fns.efi_iter_new =
       some (if ds < 40 then .panic else if ds % 8 ≠ 0 then .panic else if len % ds ≠ 0 then .panic
-            else .ok (.pair (.lit 0) (.int .usize (len / ds)))) := by
+            else .ok (.pair tag (.pair (.lit 0) (.int .usize (len / ds))))) := by
   simp only [evalO, Gen.Fns.efi_iter_new, Option.map]
   by_cases h1 : ds < 40
   · have : ¬ 40 ≤ ds := by omega
